@@ -122,11 +122,15 @@ def mps_worker(job: dict) -> dict:
         for k in range(K):
             cands = allowed(k)
             pick = cands[0]
-            if len(cands) > 1 and k < len(imats):
-                m = np.asarray(imats[k]["matrix"], dtype=float)[np.ix_(inv, inv)]
-                for c in cands:
-                    if np.allclose(m, c, rtol=1e-9, atol=1e-12):
-                        pick = c
+            if k < len(imats):
+                m = np.asarray(imats[k]["matrix"], dtype=float)
+                if m.shape == pick.shape:
+                    m = m[np.ix_(inv, inv)]
+                    for c in cands:
+                        # Pulser rounds coordinates before taking distances (~1e-7 relative): validate against the register-derived
+                        # matrix, then use the emulator's digits
+                        if np.allclose(m, c, rtol=1e-6, atol=1e-9) and np.array_equal(m, m.T):
+                            pick = m
             used.append(pick)
         states, hams = seqs.ref_unitary_run(om, de, ph, T, lambda k: used[k], psi0=psi0, kind=kind)
         hnorm = max([float(np.abs(h).sum(axis=1).max()) for h in hams] + [1.0])
@@ -146,7 +150,7 @@ def mps_worker(job: dict) -> dict:
 
         def mat_atom(e: dict) -> bool:
             m = np.asarray(e["matrix"], dtype=float)
-            return any(m.shape == c.shape and np.allclose(m, c[np.ix_(perm, perm)], rtol=1e-9, atol=1e-12) for c in (masked, full))
+            return bool(np.array_equal(m, m.T)) and any(m.shape == c.shape and np.allclose(m, c[np.ix_(perm, perm)], rtol=1e-6, atol=1e-9) for c in (masked, full))
 
         ref.row = row_atom
         ref.mat = mat_atom
